@@ -122,10 +122,10 @@ Theorem good_all : forall t1 t2 q, guards t1 t2 -> opsv t1 t2 q -> Good t1 t2 q.
 Proof.
   induction t1 as [a|xs IH|xs IH|kvs IH|xs|xs] using value_ind'; intros t2 q G OV;
     (match goal with |- Good ?t1 _ _ => destruct (ty_eqb (type_of t1) (type_of t2)) eqn:T end;
-     [|destruct G as (W1 & W2 & _ & OK & _); apply Good_type; try assumption; apply tc_of_okp; assumption]).
+     [|destruct G as (W1 & W2 & _ & OK & _); apply Good_type; assumption]).
   all: apply ty_eqb_true in T; destruct t2; try discriminate T; try (destruct a; discriminate T).
   - (* atoms *)
-    apply Good_atom. intros T0. destruct G as (_ & _ & _ & OK & _). apply tc_of_okp; assumption.
+    apply Good_atom.
   - (* lists *)
     rename xs0 into ys.
     destruct (negb (zip c) && forallb is_atom xs && forallb is_atom ys) eqn:Cd.
